@@ -39,15 +39,24 @@ EXPLANATION = (
     "errback that re-enters the fetch route, registered on every path on which the node's segment size was not seen to be "
     "known, with no failure-swallowing errback in between; after the write the writer (or a later success callback) "
     "re-enters the fetch route on every path; start() enters it; resumeProducing sets again every flag that "
-    "pauseProducing clears and that gates the route (unless it saw the pause mark unset).  "
-    "Undecided: outcomes of interleavings, Twisted producer/consumer flow control beyond the pause/resume flag (the "
+    "pauseProducing clears and that gates the route (unless it saw the pause mark unset); (12) the way back from a wrongly "
+    "guessed segment number: the retry errback's f.trap(..) lets through the error the writer raises for a segment that does "
+    "not hold the first wanted byte and the error with which SegmentFetcher fails a request past the end of the file; the "
+    "fetcher makes that report only on paths whose edge facts imply segnum >= the node's count, and every pass of its loop "
+    "method that goes on or returns has seen segnum < count (integer-exact: `<= count` is not enough), the count still a "
+    "guess, or the fetcher stopped - else it has made the report; DownloadNode.get_num_segments answers (num_segments, True) "
+    "on every path on which num_segments was not seen to be None.  "
+    "Undecided: the past-the-end check when it is moved into a helper whose result the loop method must honour, the "
+    "BADSEGNUM notification of Share (the fetcher's own check at the top of the next pass makes up for it), "
+    "outcomes of interleavings, Twisted producer/consumer flow control beyond the pause/resume flag (the "
     "_alive gate, _hungry/_alive after completion or stopProducing, register/unregisterProducer), a "
     "_start_new_segment inlined into its callers, what happens to a read whose fetch fails (the _error errback, the "
     "errback of stopProducing, the failure branch of process_blocks._deliver beyond handing the failure on), the "
     "integrity checks of _check_ciphertext_hash (other properties), download-status bookkeeping.")
 TECHNIQUE = ("static analysis: who-may-write/call sweeps, CFG gate rules on the cancel path (inter-procedural typestate with "
              "function summaries), in-class route gating of get_segment, normal forms of the clip and trim, Deferred callback-chain "
-             "order and result flow, must-follow rules for start/deliver")
+             "order and result flow, must-follow rules for start/deliver, integer-exact implication of segnum/count edge facts "
+             "on the fetcher's bad-segment-number path, trapped failure classes of the retry errback")
 
 NODE = "immutable.downloader.node:DownloadNode"
 SEG = "immutable.downloader.segmentation:Segmentation"
@@ -96,9 +105,12 @@ class ActiveFetcher:
     phase 0: _active_segment may still be bound to it; 1: _active_segment was reset to None; 2: a method that installs
     the next fetcher (_start_new_segment) ran after the reset."""
 
-    def __init__(self, idx, ci):
+    def __init__(self, idx, ci, own=None):
+        """own: an Ownership; an edge on which a continuation has seen that the slot no longer holds the fetcher it
+        is completing means there is nothing (left) for it to retire."""
         self.idx = idx
         self.ci = ci
+        self.own = own
         self._syms = {}
         self._memo = {}
         self.states = 0
@@ -169,6 +181,8 @@ class ActiveFetcher:
                     if cur not in cache:
                         cache[cur] = self.step(fn, n, st, stack)
                     outs = cache[cur]
+                    if self.own is not None and self.own.abandons(fn, n, lab):
+                        outs = {(False, p) for (_s, p) in outs}
                 for ns in outs:
                     nxt = (d, ns)
                     if nxt not in seen:
@@ -205,6 +219,564 @@ class ActiveFetcher:
                 if h_ is not None and h_.qual not in self.starters:
                     todo.append(h_)
         return list(out.values())
+
+
+# ------------------------------------------------------------------ who still owns the active-fetcher slot
+REG_TAILS = {"addCallback": "cb", "addErrback": "eb", "addBoth": "both", "addCallbacks": "pair"}
+SCHEDULERS = {"eventually": 0, "callLater": 1}      # callee tail -> position of the callable that runs on a later turn
+
+
+class Continuation:
+    """fn runs on a later reactor turn: it was handed to addCallback/addErrback/addBoth/addCallbacks (also wrapped in
+    eventually) or to eventually()/callLater() by `call`, CFG node `node` of the function `host`.
+    bind: {parameter of fn: argument AST evaluated in host when the continuation is registered}."""
+    __slots__ = ("host", "call", "node", "fn", "bind", "how")
+
+    def __init__(self, host, call, node, fn, bind, how):
+        self.host, self.call, self.node, self.fn, self.bind, self.how = host, call, node, fn, bind, how
+
+
+class Finding:
+    __slots__ = ("fn", "ast", "what", "attr", "witness", "via")
+
+    def __init__(self, fn, a, what, attr, w, via):
+        self.fn, self.ast, self.what, self.attr, self.witness, self.via = fn, a, what, attr, w, via
+
+
+class Ownership:
+    """Static model of `may this code still treat self._active_segment as the fetcher it is completing?`.
+
+    Code that runs after an asynchronous gap (a Continuation) knows that only by comparing the slot with a value
+    that was read from the slot *before* the gap: a local of the registering function, read from
+    self._active_segment on every path to the registration, never re-bound, with no store to the slot between the
+    read and the function's return, and either closed over by the continuation or handed to it as an extra
+    callback argument (or: a parameter that every caller in the package fills with the calling fetcher itself).
+    Such a name is a *capture*.  edge(..) classifies a CFG edge of a continuation:
+      own      slot IS a capture          abandon  slot IS NOT a capture
+      empty    slot is None / falsy       full     slot is not None / truthy
+    Locals of the continuation are followed to their unique reaching definition as long as nothing between the
+    definition and the use can store to the slot (so `cur = self._active_segment` inside the continuation is the
+    slot, never a capture).  A guard moved into a helper is read when the helper is one `return <test>`."""
+
+    def __init__(self, idx, ci):
+        self.idx = idx
+        self.ci = ci
+        self._lams = {}
+        self.funcs = self._all_funcs()
+        self._rd = {}
+        self._direct = {}
+        self._closure = {}
+        self._memo = {}
+        self._capmemo = {}
+        self.opaque = {}            # qual of the function with the test -> helper FuncInfo the rule cannot read
+        self.states = 0
+        self.roots = self._registrations()
+        self._caps_of = {}
+        self._hosts = {}
+
+    # -- functions of the class, nested functions and lambdas
+    def lam(self, parent, node):
+        f = self._lams.get(id(node))
+        if f is None:
+            f = FuncInfo(parent.module, node, "%s.<lambda@%d:%d>" % (parent.qual, node.lineno, node.col_offset), parent.cls, parent)
+            self._lams[id(node)] = f
+        return f
+
+    def _all_funcs(self):
+        out, todo, seen = [], list(all_funcs_of(self.ci)), set()
+        while todo:
+            f = todo.pop(0)
+            if f.qual in seen:
+                continue
+            seen.add(f.qual)
+            out.append(f)
+            for x in func_own_nodes(f):
+                if isinstance(x, ast.Lambda):
+                    todo.append(self.lam(f, x))
+        return out
+
+    def lexical(self, f, name):
+        """The nested function called `name` that is visible from f (f's own, or one of an enclosing function)."""
+        g = f
+        while g is not None:
+            if name in g.nested:
+                return g.nested[name]
+            g = g.parent
+        return None
+
+    def binder(self, f, name):
+        """The function whose local (or parameter) a load of `name` inside f refers to; None for globals."""
+        g = f
+        while g is not None:
+            if name in g.params or name in self.locals_of(g):
+                return g
+            g = g.parent
+        return None
+
+    def locals_of(self, f):
+        key = ("locals", f.qual)
+        if key not in self._memo:
+            self._memo[key] = set(all_defs(f))
+        return self._memo[key]
+
+    def resolve_callable(self, f, t, depth=2):
+        """FuncInfo of what the expression t (a callback argument or the callee of a call) names, when that is a
+        lambda, a nested function visible from f or a method of the class."""
+        if isinstance(t, ast.Lambda):
+            return self.lam(f, t)
+        if isinstance(t, ast.Name):
+            g = self.lexical(f, t.id)
+            if g is not None:
+                return g
+            b = self.binder(f, t.id)
+            if b is not None and depth > 0:
+                vals = all_defs(b).get(t.id) or []
+                if len(vals) == 1 and isinstance(vals[0], (ast.Lambda, ast.Attribute)):
+                    return self.resolve_callable(b, vals[0], depth - 1)
+            return None
+        return self_method_value(f, t)
+
+    # -- continuations registered by the class
+    def _registrations(self):
+        roots = []
+        for host in self.funcs:
+            for c in func_own_nodes(host):
+                if not isinstance(c, ast.Call):
+                    continue
+                tail = call_tail(c)
+                todo = []           # (callable ast, positional extras, keyword extras, takes the Deferred's result?)
+                kws = {k.arg: k.value for k in c.keywords if k.arg}
+                if tail in REG_TAILS and isinstance(c.func, ast.Attribute) and c.args:
+                    if REG_TAILS[tail] == "pair":
+                        def tup(v):
+                            return list(v.elts) if isinstance(v, (ast.Tuple, ast.List)) else []
+                        cba = tup(kws.get("callbackArgs") or (c.args[2] if len(c.args) > 2 else None))
+                        eba = tup(kws.get("errbackArgs") or (c.args[3] if len(c.args) > 3 else None))
+                        todo.append((c.args[0], cba, {}, True))
+                        eb = kws.get("errback") or (c.args[1] if len(c.args) > 1 else None)
+                        if eb is not None:
+                            todo.append((eb, eba, {}, True))
+                    else:
+                        todo.append((c.args[0], list(c.args[1:]), kws, True))
+                elif tail in SCHEDULERS and len(c.args) > SCHEDULERS[tail]:
+                    i = SCHEDULERS[tail]
+                    todo.append((c.args[i], list(c.args[i + 1:]), kws, False))
+                for (t, extra, kw, result) in todo:
+                    if isinstance(t, (ast.Name, ast.Attribute)) and (attr_path(t) or "").split(".")[-1] in SCHEDULERS and extra:
+                        i = SCHEDULERS[(attr_path(t) or "").split(".")[-1]]
+                        # d.addCallback(eventually, f, a): eventually(result, ..) is not how it is used; the usual
+                        # form is a lambda, which is followed as a continuation of its own
+                        t, extra, result = extra[i] if len(extra) > i else None, extra[i + 1:], False
+                        if t is None:
+                            continue
+                    g = self.resolve_callable(host, t)
+                    if g is None:
+                        continue
+                    ps = first_positional_params(g)
+                    if result:
+                        ps = ps[1:]
+                    bind = {p: a for p, a in zip(ps, extra) if not isinstance(a, ast.Starred)}
+                    for k, v in kw.items():
+                        if k in g.params:
+                            bind[k] = v
+                    roots.append(Continuation(host, c, node_of(host, c), g, bind, tail))
+        return roots
+
+    # -- may a statement store to the slot (directly, or through a function of the class it calls)?
+    def rd(self, f):
+        if f.qual not in self._rd:
+            self._rd[f.qual] = C.reaching_defs(f.cfg())
+        return self._rd[f.qual]
+
+    def callees_at(self, f, n):
+        out = []
+        for c in node_calls(n):
+            g = self_callee(f, c)
+            if g is None and isinstance(c.func, ast.Name):
+                g = self.resolve_callable(f, c.func)
+            if g is not None:
+                out.append((c, g))
+        return out
+
+    @staticmethod
+    def reads_slot(f):
+        return any(isinstance(x, ast.Attribute) and attr_path(x) == ACTIVE for x in func_own_nodes(f))
+
+    def _close(self, f, what, direct):
+        key = (what, f.qual)
+        if key not in self._closure:
+            seen, todo, hit = set(), [f], False
+            while todo and not hit:
+                g = todo.pop()
+                if g.qual in seen:
+                    continue
+                seen.add(g.qual)
+                hit = direct(g)
+                for n in g.cfg().nodes:
+                    todo.extend(h_ for (_c, h_) in self.callees_at(g, n))
+            self._closure[key] = hit
+        return self._closure[key]
+
+    def may_store_fn(self, f):
+        return self._close(f, "store", lambda g: any(ACTIVE in node_stores(n) for n in g.cfg().nodes))
+
+    def touches(self, f):
+        return self._close(f, "touch", lambda g: self.reads_slot(g) or any(ACTIVE in node_stores(n) for n in g.cfg().nodes))
+
+    def may_store_node(self, f, n):
+        if n.kind in ("entry", "exit", "raise"):
+            return False
+        return ACTIVE in node_stores(n) or any(self.may_store_fn(g) for (_c, g) in self.callees_at(f, n))
+
+    def _reach(self, cfg, start, back=False):
+        seen, todo = set(), [start.id]
+        edges = cfg.pred if back else cfg.succ
+        while todo:
+            x = todo.pop()
+            for (d, _l) in edges[x]:
+                if d not in seen:
+                    seen.add(d)
+                    todo.append(d)
+        return seen
+
+    def clean_between(self, f, d, n):
+        """Nothing that runs from the definition node d (included) to the use at node n (included) can store to the slot."""
+        key = ("clean", f.qual, d.id, n.id)
+        if key not in self._memo:
+            cfg = f.cfg()
+            mid = (self._reach(cfg, d) & self._reach(cfg, n, back=True)) | {d.id, n.id}
+            self._memo[key] = not any(self.may_store_node(f, cfg.nodes[i]) for i in mid)
+        return self._memo[key]
+
+    # -- captures
+    def _fetcher_param(self, host, name):
+        """`name` is a parameter of the method host that every caller in the package fills with `self`, the caller
+        being a method of the class whose instances are installed in the slot: the fetcher hands itself in."""
+        if host.parent is not None or name not in first_positional_params(host) or name in self.locals_of(host):
+            return False
+        kinds = set()
+        for f in self.funcs:
+            for n in f.cfg().nodes:
+                if ACTIVE in node_stores(n):
+                    v = assign_value(n, ACTIVE)
+                    if isinstance(v, ast.Call):
+                        k = self.idx.resolve_expr_to_class(f.module, v.func)
+                        if k is not None:
+                            kinds.add(k.qual)
+        sites = [cs for cs in get_callgraph(self.idx).calls_named(host.name)
+                 if isinstance(cs.call.func, ast.Attribute) and not (cs.fn.cls is not None and cs.fn.cls.lookup(host.name) not in (None, host))]
+        if not sites or not kinds:
+            return False
+        for cs in sites:
+            try:
+                a = bind_call_args(host, cs.call).get(name)
+            except AnalysisError:
+                return False
+            if not (isinstance(a, ast.Name) and a.id == "self" and cs.fn.cls is not None
+                    and any(k.qual in kinds for k in cs.fn.cls.mro())):
+                return False
+        return True
+
+    def is_capture(self, host, name, regnode, depth=3):
+        """The local `name` of host holds, whenever the continuation registered at regnode runs, the value the slot
+        had when host gave up control."""
+        key = (host.qual, name, regnode.id)
+        if key in self._capmemo:
+            return self._capmemo[key]
+        self._capmemo[key] = False
+        self._capmemo[key] = ok = self._is_capture(host, name, regnode, depth)
+        return ok
+
+    def _is_capture(self, host, name, regnode, depth):
+        cfg = host.cfg()
+        if name in host.params:
+            return self._fetcher_param(host, name)
+        for x in ast.walk(host.node):
+            if isinstance(x, (ast.Nonlocal, ast.Global)) and name in x.names:
+                return False
+        defs = [n for n in cfg.nodes if name in node_stores(n)]
+        if not defs or depth <= 0:
+            return False
+        fx = self._flownorm(host)
+        for d in defs:
+            v = fx._def_value(d, name)
+            if v is None:
+                return False
+            if attr_path(v) == ACTIVE:
+                pass
+            elif isinstance(v, ast.Name) and v.id != name and self.is_capture(host, v.id, d, depth - 1):
+                pass
+            else:
+                return False
+            # nothing that host does from the read on can change the slot: the value read is the value at the gap
+            after = self._reach(cfg, d) | {d.id}
+            if any(self.may_store_node(host, cfg.nodes[i]) for i in after):
+                return False
+        ids = {d.id for d in defs}
+        return not find_path_avoiding(cfg, lambda q: q is regnode, gate_node=lambda q: q.id in ids)
+
+    def _flownorm(self, f):
+        key = ("fnorm", f.qual)
+        if key not in self._memo:
+            self._memo[key] = FlowNorm(f)
+        return self._memo[key]
+
+    def pregap_value(self, host, e, regnode):
+        """The expression e, evaluated in host when the continuation is registered, is the slot's value at the gap."""
+        if isinstance(e, ast.Name):
+            return self.is_capture(host, e.id, regnode)
+        if attr_path(e) == ACTIVE:
+            cfg = host.cfg()
+            return not any(self.may_store_node(host, cfg.nodes[i]) for i in self._reach(cfg, regnode))
+        return False
+
+    # A continuation's knowledge: (names of its namespace that are captures, qual of the registering function, id of
+    # the registration's CFG node).  The last two say relative to which gap a closed-over name is judged.
+    def lexical_caps(self, g, host, regnode):
+        """Names g closes over that are captures of host for the continuation registered at regnode."""
+        key = ("lex", g.qual, host.qual, regnode.id)
+        if key not in self._memo:
+            out = set()
+            bound = set(g.params) | self.locals_of(g)
+            for x in func_own_nodes(g, into_lambda=True):
+                if isinstance(x, ast.Name) and isinstance(x.ctx, ast.Load) and x.id not in bound and x.id not in out:
+                    if self.binder(g, x.id) is host and self.is_capture(host, x.id, regnode):
+                        out.add(x.id)
+            self._memo[key] = out
+        return self._memo[key]
+
+    def root_caps(self, root):
+        g, host = root.fn, root.host
+        self._hosts[(host.qual, root.node.id)] = (host, root.node)
+        names = set(self.lexical_caps(g, host, root.node))
+        for p, a in root.bind.items():
+            if p not in self.locals_of(g) and self.pregap_value(host, a, root.node):
+                names.add(p)
+        return (frozenset(names), host.qual, root.node.id)
+
+    def caps_of(self, fn):
+        """What fn can rely on, one entry per registration of fn as a continuation (none: fn is not one)."""
+        if fn.qual not in self._caps_of:
+            self._caps_of[fn.qual] = [self.root_caps(x) for x in self.roots if x.fn is fn]
+        return self._caps_of[fn.qual]
+
+    def call_caps(self, f, caps, g, call):
+        """Knowledge of the callee g for the call `call` made in f (whose knowledge is `caps`)."""
+        names, hq, rid = caps
+        out = set()
+        ps = first_positional_params(g)
+        for i, a in enumerate(call.args):
+            if i < len(ps) and isinstance(a, ast.Name) and a.id in names and ps[i] not in self.locals_of(g):
+                out.add(ps[i])
+        for k in call.keywords:
+            if k.arg in g.params and isinstance(k.value, ast.Name) and k.value.id in names and k.arg not in self.locals_of(g):
+                out.add(k.arg)
+        bound = set(g.params) | self.locals_of(g)
+        for v in names:
+            if v in bound:
+                continue
+            b = self.binder(g, v)
+            if b is not None and (b is f or b is self.binder(f, v)):
+                out.add(v)
+        if (hq, rid) in self._hosts:
+            out |= self.lexical_caps(g, *self._hosts[(hq, rid)])
+        return (frozenset(out), hq, rid)
+
+    # -- what an expression / an edge says about the slot
+    def kind(self, f, caps, n, e, depth=3):
+        """ACT: the slot's current value; CAP: a capture; NONE; OTHER."""
+        if attr_path(e) == ACTIVE:
+            return "ACT"
+        if _is_none(e):
+            return "NONE"
+        if isinstance(e, ast.Name):
+            if e.id in caps[0]:
+                return "CAP"
+            ds = self.rd(f).get(n.id, {}).get(e.id)
+            if ds and len(ds) == 1 and depth > 0:
+                (d,) = tuple(ds)
+                if d != C.PARAM_DEF:
+                    dn = f.cfg().nodes[d]
+                    v = self._flownorm(f)._def_value(dn, e.id)
+                    if v is not None and self.clean_between(f, dn, n):
+                        return self.kind(f, caps, dn, v, depth - 1)
+        return "OTHER"
+
+    @staticmethod
+    def single_return(g):
+        body = [s for s in g.body if not (isinstance(s, ast.Expr) and isinstance(s.value, ast.Constant))]
+        if len(body) == 1 and isinstance(body[0], ast.Return) and body[0].value is not None:
+            return body[0].value
+        return None
+
+    def truth(self, f, caps, n, e, pol, depth=3):
+        while isinstance(e, ast.UnaryOp) and isinstance(e.op, ast.Not):
+            e, pol = e.operand, not pol
+        if isinstance(e, ast.Compare) and len(e.ops) == 1:
+            op = type(e.ops[0])
+            if op not in (ast.Is, ast.IsNot, ast.Eq, ast.NotEq):
+                return None
+            same = (op in (ast.Is, ast.Eq)) == pol
+            ks = {self.kind(f, caps, n, e.left), self.kind(f, caps, n, e.comparators[0])}
+            if ks == {"ACT", "CAP"}:
+                return "own" if same else "abandon"
+            if ks == {"ACT", "NONE"}:
+                return "empty" if same else "full"
+            return None
+        if isinstance(e, ast.Call) and depth > 0:
+            g = self_callee(f, e)
+            if g is None and isinstance(e.func, ast.Name):
+                g = self.resolve_callable(f, e.func)
+            if g is None:
+                return None
+            ret = self.single_return(g)
+            if ret is None:
+                if self.touches(g):
+                    self.opaque.setdefault(f.qual, g)
+                return None
+            rn = [q for q in g.cfg().nodes if is_return(q)]
+            if len(rn) != 1:
+                return None
+            return self.truth(g, self.call_caps(f, caps, g, e), rn[0], ret, pol, depth - 1)
+        if isinstance(e, ast.Name) and depth > 0 and e.id not in caps[0]:
+            ds = self.rd(f).get(n.id, {}).get(e.id)
+            if ds and len(ds) == 1:
+                (d,) = tuple(ds)
+                if d != C.PARAM_DEF:
+                    dn = f.cfg().nodes[d]
+                    v = self._flownorm(f)._def_value(dn, e.id)
+                    if isinstance(v, (ast.Compare, ast.UnaryOp, ast.Call)) and self.clean_between(f, dn, n):
+                        return self.truth(f, caps, dn, v, pol, depth - 1)
+        if self.kind(f, caps, n, e) == "ACT":
+            return "full" if pol else "empty"
+        return None
+
+    def edge(self, f, caps, n, lab):
+        if n.kind != "test" or not isinstance(lab, tuple):
+            return None
+        key = ("edge", f.qual, caps, n.id, lab[0])
+        if key not in self._memo:
+            self._memo[key] = self.truth(f, caps, n, n.ast, lab[0] == "T")
+        return self._memo[key]
+
+    def abandons(self, fn, n, lab):
+        """On this edge the continuation fn has seen that the slot does not hold the fetcher it is completing
+        (however fn came to be registered)."""
+        cs = self.caps_of(fn)
+        return bool(cs) and all(self.edge(fn, c, n, lab) == "abandon" for c in cs)
+
+    def refuse_opaque(self, fn, what):
+        """Called before a violation is reported on a continuation: a guard that sits in a helper the rule cannot
+        read is an analysis error, not a verdict."""
+        for n in fn.cfg().nodes:
+            if n.kind == "test":
+                for (_d, lab) in fn.cfg().succ[n.id]:
+                    for c in self.caps_of(fn) or [(frozenset(), None, None)]:
+                        self.edge(fn, c, n, lab)
+        g = self.opaque.get(fn.qual)
+        if g is not None:
+            raise AnalysisError("%s tests the result of %s, which reads _active_segment but is not a single `return <test>`: "
+                                "the rule cannot tell whether it establishes that the fetcher being completed is still the "
+                                "active one (%s)" % (short(fn), short(g), what))
+
+    # -- the walk: every store to / dereference of the slot in code that runs after the gap
+    def derefs(self, f, caps, n):
+        out = []
+        for e in node_exprs(n):
+            for x in own_nodes(e):
+                if isinstance(x, ast.Attribute) and not (attr_path(x) == ACTIVE) and self.kind(f, caps, n, x.value) == "ACT":
+                    out.append(x)
+        return out
+
+    def walk(self, g, caps, st0, stack=()):
+        """(states at the normal exit, findings, number of stores/dereferences met) of g entered in state
+        st0 = (owned, empty).  owned: the slot is known to hold the fetcher being completed (or one this path
+        installed itself); empty: the slot is known to hold None."""
+        key = ("walk", g.qual, caps, st0)
+        if key in self._memo:
+            return self._memo[key]
+        self._memo[key] = ({(False, False)}, [], 0)       # recursion: assume nothing
+        cfg = g.cfg()
+        stack = tuple(stack) + (g.qual,)
+        s0 = (cfg.entry.id, st0)
+        seen, parent, todo = {s0}, {s0: None}, [s0]
+        findings, met = [], 0
+        flagged = set()
+        while todo:
+            cur = todo.pop(0)
+            nid, st = cur
+            n = cfg.nodes[nid]
+            special = n.kind in ("entry", "exit", "raise")
+            after = {st}
+            if not special:
+                owned, empty = st
+                for x in self.derefs(g, caps, n):
+                    met += 1
+                    if not owned and (id(x), "d") not in flagged:
+                        flagged.add((id(x), "d"))
+                        findings.append(Finding(g, x, "deref", x.attr, witness(cfg, parent, cur), ()))
+                for (c, h_) in self.callees_at(g, n):
+                    if not self.touches(h_):
+                        continue
+                    nxt = set()
+                    for s_ in after:
+                        if h_.qual in stack:
+                            nxt.add((False, False))
+                            continue
+                        ex, fs, k = self.walk(h_, self.call_caps(g, caps, h_, c), s_, stack)
+                        met += k
+                        nxt |= ex
+                        for f_ in fs:
+                            if (id(f_.ast), f_.what) not in flagged:
+                                flagged.add((id(f_.ast), f_.what))
+                                findings.append(Finding(f_.fn, f_.ast, f_.what, f_.attr, f_.witness, (g,) + tuple(f_.via)))
+                    after = nxt
+                if ACTIVE in node_stores(n):
+                    met += 1
+                    if any(not (o or e_) for (o, e_) in after) and (id(n.ast), "s") not in flagged:
+                        flagged.add((id(n.ast), "s"))
+                        findings.append(Finding(g, n.ast, "store", None, witness(cfg, parent, cur), ()))
+                    v = assign_value(n, ACTIVE)
+                    after = {(False, True) if _is_none(v) else ((True, False) if v is not None else (False, False))}
+            for (d, lab) in cfg.succ[nid]:
+                if special or lab == "exc":
+                    outs = {st}
+                else:
+                    what = self.edge(g, caps, n, lab)
+                    outs = set()
+                    for (o, e_) in after:
+                        if what == "own":
+                            outs.add((True, False))
+                        elif what == "abandon":
+                            outs.add((False, e_))
+                        elif what == "empty":
+                            outs.add((False, True))
+                        elif what == "full":
+                            outs.add((o, False))
+                        else:
+                            outs.add((o, e_))
+                for ns in outs:
+                    nx = (d, ns)
+                    if nx not in seen:
+                        seen.add(nx)
+                        parent[nx] = (cur, lab)
+                        todo.append(nx)
+        self.states += len(seen)
+        res = ({s for (i, s) in seen if i == cfg.exit.id}, findings, met)
+        self._memo[key] = res
+        return res
+
+    def stale_guards(self, g, caps):
+        """Tests of g that compare the slot with something that is not a capture (for the message)."""
+        out = []
+        for n in g.cfg().nodes:
+            e = n.ast
+            if n.kind == "test" and isinstance(e, ast.Compare) and len(e.ops) == 1 \
+                    and isinstance(e.ops[0], (ast.Is, ast.IsNot, ast.Eq, ast.NotEq)):
+                ks = [self.kind(g, caps, n, e.left), self.kind(g, caps, n, e.comparators[0])]
+                if "ACT" in ks and "CAP" not in ks and "NONE" not in ks:
+                    out.append(e)
+        return out
 
 
 def fresh_local(r, fn, ctor, what):
@@ -769,7 +1341,10 @@ def run_restart(ctx, r):
     """Whoever retires the active fetcher of the shared node starts the next queued request (C04.8)."""
     idx = ctx.idx
     ci = idx.cls(NODE)
-    eff = ActiveFetcher(idx, ci)
+    # a completion that runs on a later turn and sees that the slot no longer holds the fetcher it is completing (the
+    # cancel path retired it and has already started the next one) has nothing to reset and nothing to start
+    own = Ownership(idx, ci)
+    eff = ActiveFetcher(idx, ci, own)
     cr = idx.func(NODE + "._cancel_request")
     todo = [(cr, False, "cancelling a read")]
     for f in all_funcs_of(ci):
@@ -783,6 +1358,8 @@ def run_restart(ctx, r):
             raise AnchorVanished("%s no longer stops the active fetcher" % short(fn))
         r.site(fn, None, "restart after retiring the active fetcher")
         k0, k1 = (cfg.exit.id, (True, 0)), (cfg.exit.id, (True, 1))
+        if k0 in seen or k1 in seen:
+            own.refuse_opaque(fn, "C04.8")
         if k0 in seen:
             w = witness(cfg, parent, k0)
             r.violation(fn, fn.loc(), "%s: %s can finish with _active_segment still bound to the retired SegmentFetcher: "
@@ -793,6 +1370,64 @@ def run_restart(ctx, r):
             r.violation(fn, fn.loc(), "%s: %s retires the active fetcher but can finish without _start_new_segment(): the "
                         "requests other reads have queued for other segments are never started, so those reads never "
                         "complete (path: %s)" % (short(fn), what, w.brief()), w)
+
+
+def run_ownership(ctx, r):
+    """Code of DownloadNode that runs after an asynchronous gap touches _active_segment only after it has made sure
+    that the slot still holds the fetcher it is completing (C04.13)."""
+    idx = ctx.idx
+    ci = idx.cls(NODE)
+    own = Ownership(idx, ci)
+    if not own.roots:
+        raise AnchorVanished("DownloadNode registers no Deferred callback / eventually() continuation")
+    seen = set()
+    for root in own.roots:
+        g = root.fn
+        if not own.touches(g):
+            continue
+        caps = own.root_caps(root)
+        _exits, findings, met = own.walk(g, caps, (False, False))
+        if not met:
+            continue
+        r.site(root.host, root.call, "%s(%s) runs later and touches _active_segment%s" % (
+            root.how, short(g).split(".", 1)[-1], (" knowing " + "/".join(sorted(caps[0]))) if caps[0] else ""))
+        findings = [f for f in findings if (id(f.ast), f.what) not in seen]
+        if findings:
+            own.refuse_opaque(g, "C04.13")
+            for f in findings:
+                for h_ in f.via:
+                    own.refuse_opaque(h_, "C04.13")
+                own.refuse_opaque(f.fn, "C04.13")
+        for f in findings:
+            seen.add((id(f.ast), f.what))
+            where = "%s, registered with %s by %s" % (short(g), root.how, short(root.host))
+            if f.fn is not g:
+                where = "%s (called from %s)" % (short(f.fn), " -> ".join([short(g)] + [short(x) for x in f.via[1:]])) \
+                    + ", which runs in the continuation " + where
+            stale = own.stale_guards(f.fn, caps if f.fn is g else (frozenset(), None, None)) + (own.stale_guards(g, caps) if f.fn is not g else [])
+            hint = ""
+            if stale:
+                hint = "; `%s` does not help: what the slot is compared with was not read from it before the gap" % src(g, stale[0])
+            elif not caps[0]:
+                hint = "; nothing this code can see was read from _active_segment before the Deferred was set up"
+            if f.what == "store":
+                msg = ("%s assigns self._active_segment (`%s`) on a later reactor turn, on a path that has not established that "
+                       "the slot still holds the fetcher it is completing (no `self._active_segment is <value read from it "
+                       "before the gap>`, nor the slot seen empty)%s: when the only reader of that segment cancels in the "
+                       "meantime, _cancel_request() has already retired that fetcher and installed the next one; this store "
+                       "orphans the new fetcher, _start_new_segment() fetches its segment a second time, and the stale outcome "
+                       "is handed to reads that have nothing to do with it (path: %s)" % (
+                           where, src(f.fn, f.ast), hint, f.witness.brief()))
+            else:
+                msg = ("%s dereferences self._active_segment.%s on a later reactor turn, on a path that has not established "
+                       "that the slot still holds the fetcher it is completing%s: by then _cancel_request() may have put None "
+                       "or another read's SegmentFetcher there, so this raises (or looks at the wrong fetcher) and the error is "
+                       "delivered to a concurrent read that did not cancel anything (path: %s)" % (
+                           where, f.attr, hint, f.witness.brief()))
+            r.violation(f.fn, f.fn.loc(f.ast), msg, f.witness)
+    r.count(own.states)
+    # the synchronous retirers are not continuations: fetch_failed is told by the fetcher who it is, _cancel_request /
+    # stop swap the slot in one statement.  They are decided by C04.2 / C04.8, not here.
 
 
 # ------------------------------------------------------------------ Deferred results and callback chains
@@ -1289,6 +1924,250 @@ def run_chain(ctx, r):
             break
 
 
+FETCH = "immutable.downloader.fetcher:SegmentFetcher"
+
+
+def _exc_class_expr(e):
+    """The class expression of `raise X(..)` / `raise X` / `Failure(X(..))`."""
+    return e.func if isinstance(e, ast.Call) else e
+
+
+def run_past_end(ctx, r):
+    """A read that starts from a *guessed* segment size can ask for a segment that does not exist.  The only way
+    back is: the fetcher fails exactly such a request with an error the retry errback of the read lets through
+    (C04.12)."""
+    idx = ctx.idx
+    nrm = Normaliser(Env(None, depth=0))
+    ci, funcs, F, gc, gn, reach = seg_fetcher(idx)
+    dname = segment_deferred(F, gn, gc)
+    regs = flat_regs([(x.kind, x.target, x.errtarget, x.call) for x in registrations(F, dname)])
+    writers = [g for g in funcs if any(isinstance(c.func, ast.Attribute) and nf(c.func.value) == "self._consumer"
+                                       for c in calls_in_func(g, "write"))]
+    if len(writers) != 1:
+        raise AnchorVanished("Segmentation: expected one method that writes to the consumer, found %d" % len(writers))
+    W = writers[0]
+    iw = [i for (i, ch, t, _c) in regs if "cb" in ch and self_method_value(F, t) is W]
+    if not iw:
+        raise AnchorVanished("%s is not a success callback of the segment Deferred (reported by C04.11)" % short(W))
+    retry = [self_method_value(F, t) for (i, ch, t, _c) in regs if "eb" in ch and i > iw[0] and self_method_value(F, t) is not None
+             and self_method_value(F, t).qual in reach]
+    if not retry:
+        raise AnchorVanished("no errback of the segment Deferred fetches again (reported by C04.11)")
+    RT = retry[0]
+    # -- (a) what the retry errback lets through: the f.trap(..) calls that every route to the re-fetch passes
+    rp = first_positional_params(RT)
+    rcfg = RT.cfg()
+    again = {q.id for q in rcfg.nodes if any(reach_refs(RT, q, reach))}
+    if not rp or not again:
+        raise AnchorVanished("%s: cannot read the retry errback" % short(RT))
+    traps = []
+    for c in calls_in_func(RT, "trap"):
+        if isinstance(c.func, ast.Attribute) and nf(c.func.value) == rp[0]:
+            tn = node_of(RT, c)
+            if not find_path_avoiding(rcfg, lambda q: q.id in again, gate_node=lambda q, _t=tn: q is _t, skip_exc_edges=True):
+                traps.append((c, [idx.resolve_expr_to_class(RT.module, a) for a in c.args]))
+    r.site(RT, traps[0][0] if traps else None, "the retry lets the wrong-guess failures through")
+
+    def recovered(k):
+        """Failure class k passes every trap on the way to the re-fetch (a class outside the package in a trap may
+        be a base of anything)."""
+        return all(any(t is None or t in k.mro() for t in ts) for (_c, ts) in traps)
+
+    def why(k):
+        c = next(c for (c, ts) in traps if not any(t is None or t in k.mro() for t in ts))
+        return c, src(RT, c)
+    # -- (b) the writer's own complaint about a segment that does not hold the first wanted byte
+    ws = Sym(idx, W)
+    wcfg = W.cfg()
+    wnorm = FlowNorm(W)
+    ovs = calls_in_func(W, "overlap")
+    if len(ovs) != 1:
+        raise AnchorVanished("%s: the overlap(..) computation was not found" % short(W))
+    ov = nf(ws.expand(node_of(W, ovs[0]), ovs[0]))
+
+    def unusable(q, lab):
+        f = wnorm.edge_fact(q, lab)
+        return bool(f) and ((f[0] == "false" and f[1] == ov) or (f[0] == "!=" and {f[1], f[2]} == {ov + "[0]", "self._offset"}))
+    wrong = [q for q in wcfg.nodes if is_raise(q) and q.ast.exc is not None
+             and not find_path_avoiding(wcfg, lambda x, _q=q: x is _q, gate_edge=unusable)]
+    if not wrong:
+        raise AnchorVanished("%s no longer raises when the delivered segment does not hold the first wanted byte" % short(W))
+    for q in wrong:
+        k = idx.resolve_expr_to_class(W.module, _exc_class_expr(q.ast.exc))
+        r.site(W, q.ast, "wrong segment -> %s" % (k.name if k is not None else src(W, q.ast.exc)))
+        if k is not None and not recovered(k):
+            c, s_ = why(k)
+            r.violation(RT, RT.loc(c), "%s re-raises (%s) the %s that %s raises for a segment fetched from a guessed segment size "
+                        "that does not hold the first wanted byte: the first read at a non-zero offset of a file whose segment "
+                        "size differs from the guess fails instead of being retried with the real size" % (
+                            short(RT), s_, k.name, short(W)))
+    # -- (c) the fetcher: which object it reports to, which attribute is its segment number
+    fci = idx.cls(FETCH)
+    ffuncs = all_funcs_of(fci)
+    finit = fci.lookup("__init__")
+    sn = None
+    for m in all_funcs_of(idx.cls(NODE)):
+        cs = [c for c in calls_in_func(m, fci.name) if isinstance(c.func, (ast.Name, ast.Attribute))]
+        if cs:
+            sn = (m, cs[0])
+            break
+    if finit is None or sn is None:
+        raise AnchorVanished("DownloadNode no longer builds a SegmentFetcher")
+    ss = Sym(idx, sn[0])
+    bound = {p: nf(ss.expand(node_of(sn[0], sn[1]), a)) for p, a in bind_call_args(finit, sn[1]).items()}
+    istores = {p: nf(v[1]) for p, v in Sym(idx, finit, expand_attrs=False).attr_stores().items()}
+    node_attrs = [a for a, p in istores.items() if bound.get(p) == "self"]
+    seg_attrs = [a for a, p in istores.items() if bound.get(p) == norm_src("self._segment_requests[0][0]")]
+    if len(node_attrs) != 1 or len(seg_attrs) != 1:
+        raise AnchorVanished("SegmentFetcher.__init__: cannot tell the node / segment number attributes (%s, %s)" % (node_attrs, seg_attrs))
+    R, SEGN = node_attrs[0], seg_attrs[0]
+    S = nrm.poly(parse_expr(SEGN))
+    COUNTS = [nrm.poly(parse_expr(norm_src(t % R))) for t in ("%s.get_num_segments()[0]", "%s.num_segments")]
+    GUESS = {norm_src(t % R) for t in ("%s.get_num_segments()[1]", "%s.have_UEB")}
+    KNOWN = norm_src("%s.num_segments" % R)
+
+    def segnum_bound(f):
+        """(side, exact) of a canonical edge fact that compares the fetcher's segment number with the node's count:
+        side 'in' - it bounds the number from above, 'out' - from below; exact - it implies segnum < count
+        (resp. segnum >= count) over the integers."""
+        if not f or f[0] not in ("<", "<=") or f[2] is None:
+            return None
+        try:
+            diff = nrm.poly(parse_expr(f[2])) - nrm.poly(parse_expr(f[1]))      # the fact says 0 < diff / 0 <= diff
+        except Exception:
+            return None
+        for cnt in COUNTS:
+            c = ((cnt - S) - diff).const_value()        # diff = count - segnum - c
+            if c is not None:
+                return ("in", c >= (0 if f[0] == "<" else 1))
+            c = ((S - cnt) - diff).const_value()        # diff = segnum - count - c
+            if c is not None:
+                return ("out", c >= (-1 if f[0] == "<" else 0))
+        return None
+    fnorms = {}
+
+    def fact(g, q, lab):
+        if g.qual not in fnorms:
+            fnorms[g.qual] = FlowNorm(g)
+        return fnorms[g.qual].edge_fact(q, lab)
+    # -- (d) the failures the fetcher hands to the node as Failure(<Class>(..)): those issued for a segment number
+    #    bounded from below by the count, or of a class the retry asks for by name, are the past-the-end reports
+    named = {t for (_c, ts) in traps for t in ts if t is not None}
+    reports = []
+    for g in ffuncs:
+        gs_ = None
+        for c in calls_in_func(g, "fetch_failed"):
+            if not (isinstance(c.func, ast.Attribute) and nf(c.func.value) == R and len(c.args) == 2):
+                continue
+            gs_ = gs_ or Sym(idx, g)
+            q = node_of(g, c)
+            fv = gs_.expand(q, c.args[1])
+            if not (isinstance(fv, ast.Call) and call_tail(fv) == "Failure" and len(fv.args) == 1 and isinstance(fv.args[0], ast.Call)):
+                continue
+            k = idx.resolve_expr_to_class(g.module, fv.args[0].func)
+            if k is None:
+                continue
+            below = not find_path_avoiding(g.cfg(), lambda x, _q=q: x is _q, skip_exc_edges=True,
+                                           gate_edge=lambda x, lab, _g=g: (segnum_bound(fact(_g, x, lab)) or ("", 0))[0] == "out")
+            if below or k in named:
+                reports.append((g, q, c, k))
+    hosts = {}
+    for (g, q, c, k) in reports:
+        hosts.setdefault(g.qual, (g, []))[1].append(q)
+        r.site(g, c, "past the end -> %s" % k.name)
+        if not recovered(k):
+            c_, s_ = why(k)
+            r.violation(RT, RT.loc(c_), "%s re-raises (%s) the %s with which %s fails a request for a segment past the end of "
+                        "the file: a first read whose guessed segment number does not exist fails instead of being retried "
+                        "with the real segment size" % (short(RT), s_, k.name, short(g)))
+        for (x, w) in find_path_avoiding(g.cfg(), lambda x, _q=q: x is _q, skip_exc_edges=True,
+                                         gate_edge=lambda x, lab, _g=g: segnum_bound(fact(_g, x, lab)) == ("out", True)):
+            r.violation(g, g.loc(c), "%s fails the segment request with %s although %s may be smaller than the node's segment "
+                        "count: reads of a segment that exists (the last one) fail (path: %s)" % (short(g), k.name, SEGN, w.brief()), w)
+    if not hosts:
+        for g in ffuncs:
+            if any(isinstance(c.func, ast.Attribute) and nf(c.func.value) == R for c in calls_in_func(g, "get_num_segments")):
+                hosts[g.qual] = (g, [])
+    if not hosts:
+        raise AnchorVanished("SegmentFetcher neither asks the node for the segment count nor reports a bad segment number")
+    # -- (e) ... and every pass of the fetcher's loop that goes on (or just returns) has seen the number in range, the
+    #    count still a guess, or the fetcher stopped - otherwise it has made that report
+    stop = fci.lookup("stop")
+    stopped = set()
+    if stop is not None:
+        for q in stop.cfg().nodes:
+            for p in node_stores(q):
+                v = assign_value(q, p)
+                if p.startswith("self.") and isinstance(v, ast.Constant) and v.value is False:
+                    stopped.add(p)
+    entries = set()
+    for g in ffuncs:
+        for c in calls_in_func(g, None, into_lambda=True):
+            for a in c.args:
+                m = self_method_value(g, a)
+                if m is not None:
+                    entries.add(m.qual)
+    closure, todo = set(), [f for f in ffuncs if f.qual in entries]
+    while todo:
+        g = todo.pop()
+        if g.qual in closure:
+            continue
+        closure.add(g.qual)
+        for c in calls_in_func(g):
+            m = self_callee(g, c)
+            if m is not None:
+                todo.append(m)
+    for (g, rnodes) in hosts.values():
+        rids = {q.id for q in rnodes}
+        r.site(g, None, "no pass goes on with a segment number past the end")
+        r.require(g.qual in closure, g, g.loc(), "%s, which checks the segment number against the node's count, is not run by "
+                  "the fetcher's scheduled loop" % short(g))
+
+        def passed(x, lab, _g=g):
+            f = fact(_g, x, lab)
+            if not f:
+                return False
+            if segnum_bound(f) == ("in", True):
+                return True
+            if f[0] == "false" and (f[1] in GUESS or f[1] in stopped):
+                return True
+            return f[0] in ("is", "==") and {f[1], f[2]} == {"None", KNOWN}
+        ws_ = find_path_avoiding(g.cfg(), lambda x: x.kind == "exit", gate_node=lambda x, _r=rids: x.id in _r, gate_edge=passed,
+                                 skip_exc_edges=True)
+        r.count(len(g.cfg().nodes))
+        for (x, w) in ws_[:1]:
+            r.violation(g, g.loc(), "%s can go on with (or return from) a pass although the node's segment count is authoritative "
+                        "and %s was not seen to be smaller than it, without failing the request with %s: a first read whose "
+                        "guessed segment number is one that does not exist (offset // guessed size == real number of segments) is "
+                        "answered BADSEGNUM by every share and dies with NotEnoughSharesError instead of being retried with the "
+                        "real segment size (path: %s)" % (short(g), SEGN, " / ".join(sorted(t.name for t in named)) or
+                                                          "an error the retry recovers from", w.brief()), w)
+    # -- (f) the node says 'authoritative' with the real count as soon as it has one
+    gns = idx.func(NODE + ".get_num_segments")
+    gsy = Sym(idx, gns)
+    gnorm = FlowNorm(gns)
+    r.site(gns, None, "(num_segments, True) once the count is known")
+
+    def good(q):
+        v = gsy.expand(q, q.ast.value) if q.ast.value is not None else None
+        if not (isinstance(v, ast.Tuple) and len(v.elts) == 2 and nf(v.elts[0]) == "self.num_segments"):
+            return False
+        a = v.elts[1]
+        if isinstance(a, ast.Constant):
+            return a.value is True
+        f = nrm.cmp(a, True)
+        return f in (("is not", "self.num_segments", "None"), ("is not", "None", "self.num_segments"), ("truth", "self.have_UEB", None))
+
+    def unknown(q, lab):
+        f = gnorm.edge_fact(q, lab)
+        return bool(f) and ((f[0] in ("is", "==") and {f[1], f[2]} == {"None", "self.num_segments"})
+                            or (f[0] == "false" and f[1] in ("self.num_segments", "self.have_UEB")))
+    for (q, w) in find_path_avoiding(gns.cfg(), lambda x: is_return(x) and not good(x), gate_edge=unknown, skip_exc_edges=True):
+        r.violation(gns, gns.loc(q.ast), "get_num_segments answers %s although the real segment count may be known: the fetcher "
+                    "takes the count for a guess and never fails a request past the end of the file (path: %s)" % (
+                        src(gns, q.ast.value) if q.ast.value is not None else "None", w.brief()), w)
+
+
 def run_clip(ctx, r):
     idx = ctx.idx
     rd = idx.func(NODE + ".read")
@@ -1567,3 +2446,13 @@ def run(ctx: Context):
                   "whenever the segment size is a guess; the writer continues the read; resumeProducing reopens the gate that "
                   "pauseProducing closed; start() asks for the first segment", expected=5) as r:
         run_chain(ctx, r)
+    with ctx.rule("C04.12", "R1/R6", "a request for a segment past the end of the file (a wrong guess) is failed by the fetcher, "
+                  "exactly when segnum >= the authoritative count, with an error that the retry errback of the read lets "
+                  "through, as it does the writer's wrong-segment error; get_num_segments is authoritative once the count is known",
+                  expected=5) as r:
+        run_past_end(ctx, r)
+    with ctx.rule("C04.13", "R1/E3/E7", "code of DownloadNode that runs on a later reactor turn (Deferred callbacks, eventually()) "
+                  "stores to or dereferences _active_segment only on paths that compared the slot with a value read from it "
+                  "before the gap (or, for a store, saw it empty): a completion that was overtaken by a cancel leaves the "
+                  "other reads' fetcher alone", expected=1) as r:
+        run_ownership(ctx, r)
